@@ -17,8 +17,8 @@ CLASS_KF = {
     "aiff-late-replace": ("KF-C12-AIFF-LATE-REPLACE", {"audio", "str-*", "reopen-null"}),
     "aiff-sanitize": ("KF-C12-AIFF-SANITIZE", {"str-2", "str-3"}),
 }
-MODELLED = ("wav", "wavex", "rf64")
-UNMODELLED = {"header-cache"}      # classes whose failure the Lean model does not predict
+MODELLED = ("wav", "wavex", "rf64", "aiff", "caf")
+UNMODELLED = {"header-cache", "aiff-late-replace"}      # classes whose failure the Lean model does not predict
 SUBS = (2, 3, 4)
 
 
@@ -292,10 +292,11 @@ def impl_view(script, lines):
     """the transcript lines the model predicts: result codes of the SET calls on h0 and the meta line of h1"""
     ops = [l.split() for l in script.split("\n") if l.strip()]
     out = []
+    x = M.cont_of(int(re.search(r"fmt=([0-9a-f]+)", script).group(1), 16)) in ("aiff", "caf")
     for t, l in zip(ops, lines):
         if t[0] in ("setstr", "setcues") and t[1] == "h0":
             out.append(l.split()[0] if l else "")
-        elif t[0] == "cmd" and t[1] == "h0" and t[2] in ("10f1", "1400", "10d1"):
+        elif t[0] == "cmd" and t[1] == "h0" and (t[2] in ("10f1", "1400", "10d1") or (x and t[2] == "1101")):
             out.append(l.split()[0] if l else "")
         elif t[0] == "getmeta" and t[1] == "h1":
             out.append(l)
@@ -306,7 +307,7 @@ def same_meta(a, b):
     da, db = M.parse_meta(a.replace("chmap=?", "chmap=0:")), M.parse_meta(b)
     if da is None or db is None:
         return "no meta line (%s | %s)" % (a[:40], b[:40])
-    for k in list(M.STR_TYPES) + ["bext", "cart", "cuecount", "cues", "inst"]:
+    for k in list(M.STR_TYPES) + ["bext", "cart", "cuecount", "cues", "inst"] + ([] if "chmap=?" in a else ["chmap"]):
         x, y = da.get(k), db.get(k)
         if k == "cart" and x and y:
             x, y = (x[0], M.mask_cart(x[1])), (y[0], M.mask_cart(y[1]))
